@@ -35,7 +35,31 @@ MCAccepts == {
     Bad("foo+json", "json"),
     Bad("bar+xml;;", "xml") }
 MCExtra == {<<>>, <<TAG>>, <<APPXML>>, <<TAG, TEXTXML>>}
-E(d, c, l) == [status |-> 422, desc |-> d, code |-> c, link |-> l]
+E(d, c, l) == [status |-> 422, desc |-> d, code |-> c, link |-> l, shape |-> "plain", ctor |-> NoCtor]
+(* second table: error classes (to_dict overrides, header-bearing constructors, redirects) x a few Accept classes *)
+S(shape, d) == [status |-> 422, desc |-> d, code |-> TRUE, link |-> FALSE, shape |-> shape, ctor |-> NoCtor]
+C(st, kind, n, date, items, loc) ==
+    [status |-> st, desc |-> TRUE, code |-> FALSE, link |-> FALSE, shape |-> "plain",
+     ctor |-> [kind |-> kind, n |-> n, date |-> date, items |-> items, loc |-> loc]]
+Retry(st) == {C(st, "retry", -1, FALSE, <<>>, ""), C(st, "retry", 0, FALSE, <<>>, ""), C(st, "retry", 1, FALSE, <<>>, ""),
+              C(st, "retry", -1, TRUE, <<>>, "")}
+Odd == "/caf<e9> \"q\"?a=b&c=d e"      \* <e9> stands for U+00E9 (TLA+ strings are ASCII)
+MCClassErrors ==
+    {S(sh, d) : sh \in {"adds", "drops", "renames"}, d \in BOOLEAN}
+    \cup Retry(413) \cup Retry(429) \cup Retry(503)
+    \cup {C(405, "allow", -1, FALSE, <<>>, ""), C(405, "allow", -1, FALSE, <<"GET">>, ""),
+          C(405, "allow", -1, FALSE, <<"GET", "POST", "PATCH">>, "")}
+    \cup {C(416, "range", 0, FALSE, <<>>, ""), C(416, "range", 10, FALSE, <<>>, "")}
+    \cup {C(401, "challenge", -1, FALSE, <<>>, ""), C(401, "challenge", -1, FALSE, <<"Basic realm=\"x\"">>, ""),
+          C(401, "challenge", -1, FALSE, <<"Basic realm=\"x\"", "Bearer">>, "")}
+    \cup {C(301, "location", -1, FALSE, <<>>, "/new/place"), C(302, "location", -1, FALSE, <<>>, Odd),
+          C(303, "location", -1, FALSE, <<>>, "http://example.com/x?y=1"), C(307, "location", -1, FALSE, <<>>, Odd),
+          C(308, "location", -1, FALSE, <<>>, "/new/place")}
+MCClassAccepts == {Absent, A(<<R("application", "json", 10)>>), A(<<R("text", "xml", 10)>>),
+                   A(<<R("application", "x-verif-tag", 10), R("application", "json", 9)>>),
+                   A(<<R("application", "x-www-form-urlencoded", 10)>>), A(<<R("image", "png", 10)>>),
+                   A(<<Range("application", "vnd.verif+json", 10, "json")>>)}
+MCClassExtra == {<<>>, <<TAG>>}
 MCErrors == {E(d, c, l) : d \in BOOLEAN, c \in BOOLEAN, l \in BOOLEAN}
 MCErrorsQ == {E(FALSE, FALSE, FALSE), E(TRUE, TRUE, TRUE), E(TRUE, FALSE, TRUE)}
 XRenderError == Done = FALSE /\ RenderError
